@@ -338,7 +338,9 @@ RULE = ('systems of 1-10 atoms in orthogonal/triclinic cells (origin anywhere, a
         'exactly on faces; two regimes: "grid" (power-of-two cell lengths, dyadic tilts/positions: the float arithmetic of '
         'wrap and of the writers is exact, texts must be identical) and "generic" doubles (texts compared to the printed '
         'precision); all 18 atom styles + hybrids x 8 unit styles, %.Nf / %.Ne formats of 1..16 digits, velocity and '
-        'style-specific columns, dump files with scaled/unwrapped position columns and own atom ids, POSCAR direct/'
+        'style-specific columns (hybrids of 1-5 sub-styles, more than half sharing a unit-bearing column; sequences of dumps in '
+        'one process confirmed in a fresh interpreter; output to string / file name / stream; safecopy / return_info), dump '
+        'files with scaled/unwrapped position columns and own atom ids, time steps up to 2^40, POSCAR direct/'
         'Cartesian with scale != 1, tables with unit/scaled columns; distinct = distinct canonical request line; '
         'non-trivial = the real writer produced a file')
 ASSUMPTIONS = [
@@ -366,7 +368,9 @@ MANIFEST = {
             'the written columns field for field and unit kind for unit kind (layoutOf_styleCols); reading back a printed '
             'number is within half a unit of the last place (%.nf and %.ne), bounding-box identities and inverse, POSCAR '
             'scale applies to lattice and Cartesian rows, the command snippet names the units/atom_style/boundary used, '
-            'generated atom-style/dump/unit tables equal the hand-encoded LAMMPS tables. Tie: text equality atomman-vs-model '
+            'generated atom-style/dump/unit tables equal the hand-encoded LAMMPS tables; every column list (hybrids of any '
+            'length) names a property once and the hybrid composition equals the regenerated real hybrid lists; scaled dump '
+            'columns unscale to the positions. Tie: text equality atomman-vs-model '
             'on every case (exact on the dyadic grid), Lean parsers applied to the real output and compared with the system; '
             'failing-input search with an independent Python parser.',
     'note': 'Trusted: Lean kernel + propext/Classical.choice/Quot.sound; the table extractor (exec of the pure prop_info '
@@ -1160,8 +1164,11 @@ def check_data(d, style, units, ff, natypes, parsed, info=None, fname=None):
     if not parsed['has_tilt'] and any(V[i][j] != 0 for i, j in ((1, 0), (2, 0), (2, 1))):
         ck.fail('tilt-line', 'the system is triclinic but the file has no "xy xz yz" line')
     so = rel_of([WO[j] * lf for j in range(3)], V, O)
+    # each written origin component is off by at most a few print quanta e; the shift in cell vectors is e·V⁻¹, so
+    # component i is bounded by e·Σ_j |V⁻¹[j][i]| (in a strongly sheared cell an error along z shows up along b and a)
+    Vinv = inv3([[V[i][j] / lf for j in range(3)] for i in range(3)])
     for i in range(3):
-        if d['pbc'][i] and abs(so[i]) > ck.tol(Fraction(1), 4) / max(abs(V[i][i]) / lf, Fraction(1, 10 ** 6)) + Fraction(1, 10 ** 9):
+        if d['pbc'][i] and abs(so[i]) > ck.tol(Fraction(1), 4) * sum(abs(Vinv[j][i]) for j in range(3)) + Fraction(1, 10 ** 9):
             ck.fail('origin', f'written origin is shifted along periodic direction {i} by {float(so[i])} cell vectors')
     for k, a in enumerate(parsed['atoms'][:n]):
         fv = {f[0]: v for f, v in zip(lay, a['vals'])}
